@@ -46,6 +46,11 @@ def ncases(tier):
 def gen_case(rng, i):
     kind = vs.KINDS[i % 6]
     case = vs.gen_case(rng, kind)
+    if kind == "RR" and rng.random() < 0.3 and len(case["cfg"]["table"]) >= 2:
+        # a flow listed more than once in the round (a double share): [1, 2, 1]
+        t = case["cfg"]["table"]
+        for _ in range(rng.randint(1, 2)):
+            t.insert(rng.randrange(len(t) + 1), rng.choice(t))
     if rng.random() < 0.3:
         offs = rng.random() < 0.6
         case["monitor"] = {"included": rng.random() < 0.5,
@@ -59,8 +64,8 @@ def time_rules(run, stats, bad):
     case = run.case
     rate = case["cfg"]["rate"]
     arr, dec, dep = run.arr, run.dec, run.dep
-    if len(arr) != len(case["arrivals"]):
-        bad("harness-arrivals-missing", "harness: not all arrivals were injected", [len(arr), len(case["arrivals"])])
+    if len(arr) != len(case["arrivals"]) + getattr(run, "echoed", 0):
+        bad("harness-arrivals-missing", "harness: not all arrivals were injected", [len(arr), len(case["arrivals"]), getattr(run, "echoed", 0)])
         return False
     arrived = {a[3]: a for a in arr}
     if len(dec) == 0 and len(arr) > 0 and len(dep) > 0:
@@ -171,7 +176,10 @@ def monitor_rules(run, stats, bad):
 def run_case(case, stats):
     horizon = None
     if "monitor" in case:
-        horizon = max(a["t"] for a in case["arrivals"]) + sum(a["size"] for a in case["arrivals"]) * 8.0 / case["cfg"]["rate"] + 5
+        total = sum(a["size"] for a in case["arrivals"])
+        if case.get("echo"):
+            total += 3 * len(case["arrivals"]) * max(a["size"] for a in case["arrivals"])     # (bound on the echoed packets)
+        horizon = max(a["t"] for a in case["arrivals"]) + total * 8.0 / case["cfg"]["rate"] + 5
     run = vs.Run(case, monitor=case.get("monitor")).go(horizon)
     if not run.viol:
         time_rules(run, stats, run.bad)
